@@ -269,6 +269,15 @@ def bond (s : State) (o b e v amt : Nat) : State × Res :=
                                byExt := Store.set s2.byExt e o,
                                gh := Store.set s2.gh o { sent := amt, undel := 0 } }, .ok)
 
+/-- the tail of `AddDelegate` (with the keeper helpers it hands the record to): an offline oracle comes back online with a
+fresh start height — so it is not liable for anything created before it re-joined — and a cleared penalty counter; each of
+the three field updates happens only if the code has it -/
+def reactivate (h : Nat) (r : Oracle) : Oracle :=
+  { r with online := if addSetsOnline then true else r.online,
+           startHeight := if addSetsStartHeight then (if addStartHeightOnlyWhenOffline && r.online then r.startHeight else h)
+                          else r.startHeight,
+           slashTimes := if addResetsSlashTimes then 0 else r.slashTimes }
+
 /-- `AddDelegate` (the guards it makes before its first write are regenerated: `addChecks…`) -/
 def addDelegate (s : State) (o amt : Nat) : State × Res :=
   if addChecksProposal && !s.proposal.contains o then (s, .err "no-oracle") else
@@ -288,8 +297,8 @@ def addDelegate (s : State) (o amt : Nat) : State × Res :=
       match s2? with
       | none => (s, .err "staking")
       | some s2 =>
-        let r' : Oracle := { r with amount := newAmt, online := true,
-                                     startHeight := if r.online then r.startHeight else s.height, slashTimes := 0 }
+        -- which fields the re-activation path sets is REGENERATED (`addSets…`, `addResets…`)
+        let r' : Oracle := reactivate s.height { r with amount := newAmt }
         let g := (Store.get s2.gh o).getD {}
         (refreshPower { s2 with oracles := Store.set s2.oracles o r',
                                  gh := Store.set s2.gh o { g with sent := g.sent + dcoin, reon := g.reon || decide (g.undel > 0) } }, .ok)
